@@ -17,12 +17,6 @@ import (
 	"verif.local/simrt"
 )
 
-// Violation is what an oracle reports.
-type Violation struct {
-	Class  string `json:"class"`
-	Detail string `json:"detail"`
-}
-
 // Bounds are the per-tier size limits.
 type Bounds struct {
 	MaxC, MaxK, MaxOps, MaxOut, MaxG, MaxM, MaxSteps int
@@ -144,15 +138,10 @@ func main() {
 		}
 		sim := simrt.NewSim(sched)
 		sim.Tracing = tracing
-		tracingOn = tracing
 		sim.Passthrough = *lane == "real"
 		sim.MaxSteps = b.MaxSteps
 		sim.SiteNames = siteNames[:]
 		rc := &runCtx{prop: *prop, lane: *lane, b: b, prog: prog, sim: sim, probes: &probes, tally: tally}
-		if tracing && simrt.RaceEnabled {
-			// A race report ends the process at once; the trace must already be out.
-			sim.TraceSink = func(line string) { fmt.Fprintln(os.Stderr, "TRACE "+line) }
-		}
 		racesBefore := simrt.RaceErrors()
 		simrt.Begin(sim)
 		r := elemTypes[prog.Draw(len(elemTypes))]
@@ -166,9 +155,10 @@ func main() {
 			viol = r.C19(rc)
 		}
 		simrt.End()
+		viol.render()
 		if n := simrt.RaceErrors() - racesBefore; n > 0 {
 			// The report text is on stderr; the driver attaches it.
-			rv := &Violation{"data-race", fmt.Sprintf("the race detector reported %d data race(s) between simulated tasks in this run", n)}
+			rv := &Violation{Class: "data-race", Detail: fmt.Sprintf("the race detector reported %d data race(s) between simulated tasks in this run", n)}
 			if viol != nil {
 				rv.Detail += "; additionally [" + viol.Class + "] " + viol.Detail
 			}
@@ -190,7 +180,7 @@ func main() {
 			d.Tape = &simrt.Tape{Program: prog.Out(), Schedule: sched.Out()}
 		}
 		if tracing {
-			d.Trace = sim.Trace
+			d.Trace = sim.RenderTrace()
 		}
 		emit(d)
 		return viol
